@@ -13,7 +13,8 @@ import (
 )
 
 type Op struct {
-	Kind string   `json:"kind"` // write | encode | consume | drain | reencode
+	Kind string   `json:"kind"`           // write | fill | encode | consume | drain | reencode | unreg
+	Algo string   `json:"algo,omitempty"` // unreg: checksum service removed from the registry (restored after the case)
 	Raw  HexBytes `json:"raw,omitempty"`
 	V    *Value   `json:"v,omitempty"`
 	K    int      `json:"k,omitempty"`   // consume: number of unread bytes to read away (clamped)
@@ -66,9 +67,17 @@ func histApply(c *CaseHist, judge func(i int, op *Op, unreadBefore []byte, consu
 	buf := &bytes.Buffer{}
 	consumed := false
 	objs := map[int]any{}
+	restore := runPrelude(nil)
+	defer func() { restore() }()
 	for i := range c.Ops {
 		op := &c.Ops[i]
 		switch op.Kind {
+		case "unreg":
+			r := runPrelude([]PreOp{{Kind: "unreg", Algo: op.Algo}})
+			prev := restore
+			restore = func() { r(); prev() }
+		case "fill":
+			buf.Write(bytes.Repeat([]byte{0x55}, op.K))
 		case "write":
 			buf.Write(op.Raw)
 		case "consume":
@@ -238,12 +247,15 @@ func init() {
 }
 
 // genFrame draws a frame value: any registered body (arbitrary contents) or an absent body.
-func genFrame(rt *rapid.T, label string, frames []string, allowAbsent bool) (*Value, *Features) {
+func genFrame(rt *rapid.T, label string, frames []string, allowAbsent bool, big bool) (*Value, *Features) {
 	ft := rapid.SampledFrom(frames).Draw(rt, label+".frame")
 	o := DefaultOpts(Arbitrary)
 	o.NoAbsent = true
 	o.BigProb = 60
 	o.MaxList = 3000
+	if big {
+		o.BigProb, o.MaxList = 2, 30000
+	}
 	v, feat := GenValue(rt, ft, o)
 	ts := Types[ft]
 	if allowAbsent && rapid.IntRange(0, 7).Draw(rt, label+".absent") == 0 {
@@ -254,15 +266,29 @@ func genFrame(rt *rapid.T, label string, frames []string, allowAbsent bool) (*Va
 }
 
 type histStats struct {
-	offsetGT0, afterConsume, varBody, emptyBody, absentBody, staleLen, frames int
+	offsetGT0, afterConsume, varBody, emptyBody, absentBody, staleLen, frames, slide, bigFrame, unreg int
 }
 
-func genHistory(rt *rapid.T, frames []string, withReencode bool) (*CaseHist, *histStats) {
+func genHistory(rt *rapid.T, frames []string, withReencode bool, registry bool) (*CaseHist, *histStats) {
 	c := &CaseHist{}
 	st := &histStats{}
 	unread, consumed := 0, false
 	nops := rapid.IntRange(1, 8).Draw(rt, "nops")
 	var encIdx []int
+	// scenario: a large buffer almost entirely consumed, then a large frame (the buffer makes room by sliding
+	// the unread bytes down inside the same array instead of reallocating)
+	slide := rapid.IntRange(0, 7).Draw(rt, "slide") == 7
+	if slide {
+		fill := rapid.SampledFrom([]int{4096, 16384, 40000, 65536, 100000, 300000}).Draw(rt, "fill")
+		keep := rapid.SampledFrom([]int{0, 1, 7, 100, 1000}).Draw(rt, "keep")
+		c.Ops = append(c.Ops, Op{Kind: "fill", K: fill}, Op{Kind: "consume", K: fill - min(keep, fill)})
+		unread, consumed = min(keep, fill), true
+		st.slide++
+	}
+	if registry && rapid.IntRange(0, 9).Draw(rt, "unreg") == 9 {
+		c.Ops = append(c.Ops, Op{Kind: "unreg", Algo: rapid.SampledFrom(c14Algos).Draw(rt, "algo")})
+		st.unreg++
+	}
 	for i := 0; i < nops; i++ {
 		kinds := []string{"encode", "encode", "encode", "write", "consume", "consume", "drain"}
 		if withReencode && len(encIdx) > 0 {
@@ -295,7 +321,8 @@ func genHistory(rt *rapid.T, frames []string, withReencode bool) (*CaseHist, *hi
 			c.Ops = append(c.Ops, Op{Kind: "reencode", Ref: rapid.SampledFrom(encIdx).Draw(rt, "ref")})
 			unread += 1 // unknown exactly; only used for class accounting
 		case "encode":
-			v, feat := genFrame(rt, fmt.Sprintf("f%d", i), frames, true)
+			big := slide && rapid.Bool().Draw(rt, "bigframe")
+			v, feat := genFrame(rt, fmt.Sprintf("f%d", i), frames, true, big)
 			c.Ops = append(c.Ops, Op{Kind: "encode", V: v})
 			encIdx = append(encIdx, len(c.Ops)-1)
 			st.frames++
@@ -320,6 +347,9 @@ func genHistory(rt *rapid.T, frames []string, withReencode bool) (*CaseHist, *hi
 				if c2 := Computed(v); c2.F[li].N != v.F[li].N {
 					st.staleLen++
 				}
+			}
+			if len(r.Bytes) > 16384 {
+				st.bigFrame++
 			}
 			unread += len(r.Bytes)
 		}
@@ -350,6 +380,12 @@ func histRecord(c *CaseHist, st *histStats, prop string) {
 	add(st.emptyBody, "zero-length-body")
 	add(st.absentBody, "absent-body")
 	add(st.staleLen, "stale-length")
+	add(st.slide, "large-buffer-mostly-consumed")
+	add(st.bigFrame, "frame>16KiB")
+	add(st.unreg, "a-checksum-service-unregistered")
+	if st.slide > 0 && st.bigFrame > 0 {
+		cls = append(cls, "big-frame-into-mostly-consumed-large-buffer")
+	}
 	if st.frames >= 2 {
 		cls = append(cls, "frames>=2")
 	}
@@ -375,7 +411,7 @@ func TestC04(t *testing.T) {
 	ReplayRegress(t, "C04")
 	t.Run("histories", func(t *testing.T) {
 		CheckProp(t, "C04", "c04", "histories", func(rt *rapid.T) *CaseHist {
-			c, st := genHistory(rt, lenFrames, false)
+			c, st := genHistory(rt, lenFrames, false, true)
 			histRecord(c, st, "C04")
 			return c
 		}, oracleC04)
@@ -385,11 +421,186 @@ func TestC04(t *testing.T) {
 func TestC05(t *testing.T) {
 	Col.Property = "C05"
 	ReplayRegress(t, "C05")
+	t.Run("special-checksum-values", func(t *testing.T) {
+		specialChecksumCases(t)
+		Col.MarkExhaustive("every registered body type of the three checksummed frames with the frame checksum forced (by solving for a free body field) to 0, all-ones, 1, 0x80.. and the caller's stale value")
+	})
 	t.Run("histories", func(t *testing.T) {
 		CheckProp(t, "C05", "c05", "histories", func(rt *rapid.T) *CaseHist {
-			c, st := genHistory(rt, ckFrames, false)
+			c, st := genHistory(rt, ckFrames, false, false)
 			histRecord(c, st, "C05")
 			return c
 		}, oracleC05)
 	})
+}
+
+// ---- frames whose checksum takes a special value (0, all ones, the caller's stale value) -----------------
+// Such frames have probability 2^-32 under random generation for CRC-32, so they are constructed: the CRC of a
+// frame is an affine function over GF(2) of any 32 of its bits; a free numeric field of the body is solved for.
+
+// frameWithChecksum returns a copy of the frame value in which one free body field is set so that the reference
+// checksum of the frame equals target. ok=false when the body has no suitable free field.
+func frameWithChecksum(v *Value, target uint64) (*Value, bool) {
+	ts := Types[v.Type]
+	_, _, _, trailer, algo := frameGeometry(ts)
+	if algo == "" || trailer == 0 {
+		return nil, false
+	}
+	r := Render(v, &RenderOpts{Spans: true})
+	if r.MustError || r.MayError {
+		return nil, false
+	}
+	need := 4
+	if algo != "CRC32" {
+		need = 1
+	}
+	var free *Span
+	for i := range r.Spans {
+		sp := &r.Spans[i]
+		if sp.Kind == "num" && sp.Len >= need && len(sp.Path) > 7 && sp.Path[:7] == "$.Body." || sp.Kind == "num" && sp.Len >= need && len(sp.Path) > 10 && sp.Path[:10] == "$.Payload." {
+			free = sp
+			break
+		}
+	}
+	if free == nil {
+		return nil, false
+	}
+	covered := append([]byte{}, r.Bytes[:len(r.Bytes)-trailer]...)
+	set := func(x uint32) []byte {
+		b := append([]byte{}, covered...)
+		for i := 0; i < need; i++ {
+			b[free.Off+i] = byte(x >> (8 * uint(i)))
+		}
+		return b
+	}
+	var x uint32
+	if algo == "CRC32" {
+		base := refChecksum(algo, set(0))
+		var cols [32]uint32
+		for i := 0; i < 32; i++ {
+			cols[i] = uint32(refChecksum(algo, set(1<<uint(i))) ^ base)
+		}
+		// solve sum_i x_i*cols[i] = target ^ base over GF(2)
+		want := uint32(target ^ base)
+		type row struct{ vec, mask uint32 }
+		rows := make([]row, 32)
+		for i := range rows {
+			rows[i] = row{cols[i], 1 << uint(i)}
+		}
+		var sol uint32
+		used := make([]bool, 32)
+		for bit := 31; bit >= 0; bit-- {
+			p := -1
+			for i := range rows {
+				if !used[i] && rows[i].vec&(1<<uint(bit)) != 0 {
+					p = i
+					break
+				}
+			}
+			if p < 0 {
+				continue
+			}
+			used[p] = true
+			for i := range rows {
+				if i != p && rows[i].vec&(1<<uint(bit)) != 0 {
+					rows[i].vec ^= rows[p].vec
+					rows[i].mask ^= rows[p].mask
+				}
+			}
+		}
+		rem := want
+		for bit := 31; bit >= 0; bit-- {
+			if rem&(1<<uint(bit)) == 0 {
+				continue
+			}
+			found := false
+			for i := range rows {
+				if used[i] && rows[i].vec != 0 && 31-leadingZeros32(rows[i].vec) == bit {
+					rem ^= rows[i].vec
+					sol ^= rows[i].mask
+					found = true
+					break
+				}
+			}
+			if !found {
+				return nil, false
+			}
+		}
+		x = sol
+	} else {
+		cur := refChecksum(algo, set(0))
+		x = uint32((target + 256 - cur) % 256)
+	}
+	if refChecksum(algo, set(x)) != target {
+		return nil, false
+	}
+	// write the solved bytes back into the value tree: re-parse the patched rendering
+	patched := append(set(x), r.Bytes[len(r.Bytes)-trailer:]...)
+	pv, n, err := Parse(v.Type, patched)
+	if err != nil || n != len(patched) {
+		return nil, false
+	}
+	// keep the caller's stale computed fields
+	for i, f := range ts.Fields {
+		if f.Kind == "len" || f.Kind == "checksum" {
+			pv.F[i].N = v.F[i].N
+		}
+	}
+	return pv, true
+}
+
+func leadingZeros32(x uint32) int {
+	n := 0
+	for i := 31; i >= 0; i-- {
+		if x&(1<<uint(i)) != 0 {
+			return n
+		}
+		n++
+	}
+	return 32
+}
+
+func specialChecksumCases(t *testing.T) {
+	seed := int(EnvSeed() % 1000003)
+	n := 0
+	for fi, ft := range ckFrames {
+		ts := Types[ft]
+		tb := TableOf(ts, &ts.Fields[ts.DynIndex()])
+		for ki, key := range tb.Order {
+			if !MyShare(fi*131 + ki) {
+				continue
+			}
+			for rep := 0; rep < 3; rep++ {
+				o := GenOpts{Mode: Canonical, MaxList: 40, ForceKey: key}
+				v := rapid.Custom(func(rt *rapid.T) *Value { rapid.Bool().Draw(rt, "_"); x, _ := GenValue(rt, ft, o); return x }).Example(seed + 31*ki + rep)
+				ci := ts.FieldIndex(ckFieldName(ts))
+				stale := uint64(0x11111111)
+				v.F[ci].N = stale
+				targets := []uint64{0, 0xFFFFFFFF, 1, stale, 0x80000000}
+				if ts.Fields[ci].Algo != "CRC32" {
+					targets = []uint64{0, 0xFF, 1, 0x11, 0x80}
+					v.F[ci].N = 0x11
+				}
+				for _, tg := range targets {
+					fv, ok := frameWithChecksum(v, tg)
+					if !ok {
+						Col.Class("special-checksum: body has no free field (skipped)", 1)
+						continue
+					}
+					c := &CaseHist{Ops: []Op{{Kind: "encode", V: fv}}}
+					if rep == 1 {
+						c.Ops = append([]Op{{Kind: "write", Raw: HexBytes{1, 2, 3}}}, c.Ops...)
+					}
+					Col.Case(Hash64(JSONOf(c)), true, "constructed-special-checksum-value", fmt.Sprintf("checksum==%#x", tg))
+					n++
+					if Col.WantSample("special-checksum") && len(JSONOf(c)) < 1500 {
+						Col.Sample("special-checksum", map[string]any{"frame": ft, "checksum_forced_to": fmt.Sprintf("%#x", tg), "case": c})
+					}
+					if !Direct(t, "C05", "c05", fmt.Sprintf("special/%s/%s/%#x", ft, key, tg), c, oracleC05) {
+						return
+					}
+				}
+			}
+		}
+	}
 }
